@@ -13,3 +13,5 @@ def run(ctx):
         ic.rule_blockdone_order(ctx, cfg, r2)
         r3 = ctx.rule("R06.3" + sfx, "undo_bytes returns min(num_bits / 8, max) and keeps the remaining bits", floor=1, config=cfg)
         ic.rule_undo_bytes_value(ctx, cfg, r3)
+        r5 = ctx.rule("R06.4" + sfx, "zlib trailer: bytes are counted one by one across calls (resuming inside the trailer takes exactly the missing bytes)", floor=4, config=cfg)
+        ic.rule_counted_bytes(ctx, cfg, r5)
